@@ -267,11 +267,36 @@ def validate(recs, tag):
     return fails, states
 
 
+def _shared(tier):
+    """C15 and C16 are decided on the same calls: the (instances, outcomes, verdicts of TLC) are kept
+    under out/cache keyed by the CONTENT of the tree under test, the specification, the tier and the
+    seed, so the second of the two checks does not repeat the work on an unchanged tree."""
+    import hashlib
+    import pickle
+    from .common import tree_digest, CACHE
+    hs = hashlib.sha256()
+    for f in ("Subproblem.tla",):
+        hs.update(open(os.path.join(SPEC, f), "rb").read())
+    hs.update(open(__file__, "rb").read())
+    key = f"sub-{tree_digest()}-{hs.hexdigest()[:12]}-{tier}-{seed()}.pkl"
+    path = os.path.join(CACHE, key)
+    if os.path.exists(path) and time.time() - os.path.getmtime(path) < 6 * 3600:
+        with open(path, "rb") as fh:
+            return pickle.load(fh) + (True,)
+    insts, recs, sizes = run_universe(tier)
+    fails, states = validate(recs, f"sub-{os.getpid()}")
+    try:
+        with open(path, "wb") as fh:
+            pickle.dump((insts, recs, sizes, fails, states), fh)
+    except Exception:
+        pass
+    return insts, recs, sizes, fails, states, False
+
+
 def check(pid, tier):
     t0 = time.time()
     v = Verdict(pid)
-    insts, recs, sizes = run_universe(tier)
-    fails, states = validate(recs, f"{pid}-{os.getpid()}")
+    insts, recs, sizes, fails, states, cached = _shared(tier)
     nfn = {}
     for ii, r in recs:
         nfn[r["fn"]] = nfn.get(r["fn"], 0) + 1
@@ -294,7 +319,7 @@ def check(pid, tier):
     usize = sum(sizes.values())
     cov = {"states": states, "transitions": states, "traces_validated_against_impl": len(recs),
            "universe_size": usize, "universe_visited": len(insts), "exhaustive": len(insts) == usize,
-           "universes": sizes, "calls_per_solver": nfn, "failed_clauses_all_properties": dict(cc),
+           "universes": sizes, "calls_per_solver": nfn, "shared_with_sibling_check_via_tree_digest_cache": cached, "failed_clauses_all_properties": dict(cc),
            "with_exact_cauchy_oracle": sum(1 for i in insts if i["cauchy"][0] >= 0),
            "improvable_instances": sum(1 for i in insts if i["improvable"]),
            "samples": [{k: insts[j][k] for k in ("n", "g", "bp", "hk", "delta", "sc", "tcg", "rows", "eqs", "cauchy", "improvable")} for j in (0, len(insts) // 2)]}
